@@ -388,6 +388,51 @@ func RunJobScenario(sc *Scenario) (vd *Verdict) {
 		time.Sleep(d)
 		switch op.K {
 		case "batch":
+			if jid, _ := op.M["runInside"].(string); jid != "" {
+				// a run of the job (its first one, a full sync that notes how far the dependencies have got, or a later
+				// one) starts and ends while this write is in flight: stored, not yet committed
+				done := false
+				var runErr error
+				prev := hooks.onPoint
+				hooks.onPoint = func(owner any, name string, h int64) {
+					if name == "StoreEntities.beforeIDCommit" && !done {
+						done = true
+						hooks.onPoint = prev
+						r.installFaults(jid, map[string]any{})
+						_, ended, err := r.H.RunJobToEnd(jid, "incremental", 2*time.Hour)
+						r.clearFaults()
+						if err != nil || !ended {
+							runErr = fmt.Errorf("run inside a write: %v ended=%v", err, ended)
+						}
+						if r.c18 == nil {
+							r.c18 = &c18Track{changed: map[string]map[string]bool{}, prev: NewModel(), tokens: map[string]uint64{}}
+						}
+						r.c18.carry = map[string]bool{}
+						for _, b := range r.delivered {
+							for _, x := range b {
+								r.c18.carry[x] = true
+							}
+						}
+						r.Stats["job_runs"]++
+						r.Stats["runs_inside_a_write"]++
+					}
+				}
+				v := r.applyBatch(op.DS, op.Ents)
+				hooks.onPoint = prev
+				if v == nil && runErr != nil {
+					v = viol("C18", "job-run", "run-failed", "%v", runErr)
+				}
+				if v != nil {
+					fail(v, i)
+					return
+				}
+				r.c18.inflightDS = op.DS
+				r.c18.inflight = nil
+				for _, e := range op.Ents {
+					r.c18.inflight = append(r.c18.inflight, CanonSpec(e).ID)
+				}
+				break
+			}
 			if v := r.applyBatch(op.DS, op.Ents); v != nil {
 				fail(v, i)
 				return
@@ -1364,6 +1409,11 @@ type c18Track struct {
 	prev      *Model                     // model at the last fixpoint
 	tokens    map[string]uint64          // dependency tokens at the last look
 	commits   map[string][][]string      // dataset -> ids written by each commit since the last fixpoint
+	// a run of the job that took place while a client's write was in flight (between its first store step and its
+	// commit): what that run delivered, and the dataset and ids of the write
+	carry      map[string]bool
+	inflightDS string
+	inflight   []string
 }
 
 // runFixOp runs the job until its continuation token stops changing and checks what was emitted.
@@ -1450,6 +1500,13 @@ func (r *JobRun) runFixOp(op *Op, i int) *Violation {
 		if round == 79 {
 			return viol("C18", "job-run", "no-fixpoint", "continuation tokens still change after 80 runs")
 		}
+	}
+	emittedFix := map[string]bool{}
+	for x := range emitted {
+		emittedFix[x] = true
+	}
+	for x := range r.c18.carry {
+		emitted[x] = true
 	}
 	r.ev("runFix emitted=%d", len(emitted))
 	// emitted entities come from the main dataset
@@ -1563,6 +1620,31 @@ func (r *JobRun) runFixOp(op *Op, i int) *Violation {
 		}
 		r.Stats["mid_run_write_checks"]++
 	}
+	if r.c18.inflight != nil {
+		// the run that took place inside the write cannot have seen it: what the write affects has to go out in the
+		// runs after its commit
+		mds := r.c18.inflightDS
+		for _, x := range r.c18.inflight {
+			need := map[string]string{}
+			if mds == main && liveMain[x] {
+				need[x] = "was written by a client while a run was under way"
+			}
+			for _, joins := range deps[mds] {
+				for y := range reach(r.M, mds, x, joins) {
+					if liveMain[y] {
+						need[y] = fmt.Sprintf("is connected to %s entity %s, whose write was in flight when a run of the job started and ended", mds, shortURI(x))
+					}
+				}
+			}
+			for _, y := range sortedKeys(need) {
+				if !emittedFix[y] {
+					return viol("C18", "dependency-tracking", "not-emitted-after-in-flight-write", "main entity %s %s, but no run after the commit of that write delivered it; delivered after it: %v", shortURI(y), need[y], shortAll(sortedKeys(emittedFix)))
+				}
+			}
+		}
+		r.Stats["in_flight_write_checks"]++
+	}
+	r.c18.carry, r.c18.inflight, r.c18.inflightDS = nil, nil, ""
 	r.Stats["dependency_checks"]++
 	r.Stats["expected_emissions"] += int64(len(want))
 	r.c18.changed = map[string]map[string]bool{}
